@@ -351,13 +351,22 @@ Theorem c01_layer_file_independent_of_earlier_content : forall fl, In fl c01_lay
 Proof. exact layer_file_generated. Qed.
 Print Assumptions c01_layer_file_independent_of_earlier_content.
 
-(* ... the output tarball of `apko build` is NOT opened that way (finding C01-F3):
-   BuildIndex's os.OpenFile(outfile, O_CREATE|O_RDWR) keeps the tail of a longer
-   earlier out.tar — REFUTED, replayed by the history stage. *)
-Theorem c01_output_file_independent_of_earlier_content_refuted :
-  exists fl, In fl c01_index_file_open /\ exists old new : list nat, file_after fl old new <> new.
-Proof. exact index_file_keeps_tail. Qed.
-Print Assumptions c01_output_file_independent_of_earlier_content_refuted.
+(* ... and so is the output tarball of `apko build` since fix 8ccf1a0 (was finding
+   C01-F3): BuildIndex's os.OpenFile(outfile, O_CREATE|O_RDWR|O_TRUNC) — the flags
+   are read from the source (c01_index_file_open), a revert changes them and
+   index_file_opens_fresh stops checking.  The history stage keeps the replay
+   (`apko build` onto the out.tar of a bigger build) with its tag armed. *)
+Theorem c01_output_file_independent_of_earlier_content : forall fl, In fl c01_index_file_open ->
+  forall (A : Type) (old old' new : list A), file_after fl old new = new /\ file_after fl old new = file_after fl old' new.
+Proof. exact index_file_generated. Qed.
+Print Assumptions c01_output_file_independent_of_earlier_content.
+
+(* HYPOTHETICAL, the code before the fix: with the old flags (O_CREATE|O_RDWR) the tail
+   of a longer earlier out.tar stayed behind the new archive — the former refutation *)
+Theorem c01_output_file_before_fix_refuted :
+  exists fl, In fl index_file_open_before_8ccf1a0 /\ exists old new : list nat, file_after fl old new <> new.
+Proof. exact index_file_kept_tail_before_fix. Qed.
+Print Assumptions c01_output_file_before_fix_refuted.
 
 (* (2) GetRepositoryIndexes: one goroutine per repository, each stores its index at
    its own position (c01_indexes_by_position, in c01_calls) and the holes of missing
